@@ -7,6 +7,7 @@
 package utf7
 
 import (
+	"golang.org/x/text/encoding"
 	"encoding/base64"
 	"unicode/utf16"
 	"unicode/utf8"
@@ -228,3 +229,17 @@ func lemmaSameBytes(a, b []byte) {}
 //@   loop 2 invariant 0 < i && i <= len(src) && start <= i
 //@   loop 2 invariant forall k int :: start <= k && k < i ==> src[k] != 13 && src[k] != 10
 //@   loop 2 decreases len(src) - i
+
+// Every decoder / encoder handed out has a transformer of its own: the decoder
+// carries state across Transform calls (whether the previous segment was a
+// shift), which must never be shared between two names being decoded.
+//
+//@ pure
+func decoderOf(d *encoding.Decoder) *decoder {
+	t, _ := d.Transformer.(*decoder)
+	return t
+}
+
+//@ func (e enc) NewDecoder() (result *encoding.Decoder)
+//@   props C16:post
+//@   ensures result != nil && __freshPtr(decoderOf(result)) && decoderOf(result).ascii
